@@ -2556,3 +2556,37 @@ package sdf
 //@   ensures [and-from-the-arc-end] r && side != 0 && sq(radius) >= sq(dMid) ==> b.Sub(c).Length2() == sq(radius)
 //@   ensures [on-the-side-of-the-chord-chosen-by-the-sign-of-the-radius] r ==> c.Sub(mid).Dot(v2.Vec{ba.Y, -ba.X}) == side*dCenter
 //@ end
+
+//-----------------------------------------------------------------------------
+// Rotate-unions: the n-th copy is seen through the n-th power of the stored
+// (inverse) step; the box is the hull of the operand box's corners under the
+// powers of the step itself.
+
+//@ spec rec rupow3(s *RotateUnionSDF3, n int) M44 = ite(n <= 0, Identity3d(), rupow3(s, n - 1).Mul(s.step))
+//@ spec rec fpow3(m M44, n int) M44 = ite(n <= 0, Identity3d(), m.Mul(fpow3(m, n - 1)))
+//@ spec rec rupow2(s *RotateUnionSDF2, n int) M33 = ite(n <= 0, Identity2d(), rupow2(s, n - 1).Mul(s.step))
+//@ spec rec fpow2(m M33, n int) M33 = ite(n <= 0, Identity2d(), m.Mul(fpow2(m, n - 1)))
+
+//@ func RotateUnionSDF3.Evaluate
+//@   property C02 C01
+//@   id value-of-the-operand-at-one-rotated-point
+//@   requires s.num >= 1
+//@   requires forall a float64, b float64 :: s.min(a, b) == min(a, b)
+//@   requires forall q v3.Vec :: s.sdf.Evaluate(q) <= math.MaxFloat64
+//@   witnesses 0 i - 1
+//@   invariant 0 0 <= i && i <= s.num && rot == rupow3(s, i)
+//@   invariant 0 exists w int :: (i == 0 && d == math.MaxFloat64) || (0 <= w && w < i && d == s.sdf.Evaluate(rupow3(s, w).MulPosition(p)))
+//@   ensures [the-operand-seen-from-the-point-moved-by-one-of-the-first-num-powers-of-the-stored-step-starting-with-none] exists w int :: 0 <= w && w < s.num && r == s.sdf.Evaluate(rupow3(s, w).MulPosition(p))
+//@ end
+
+//@ func RotateUnionSDF2.Evaluate
+//@   property C02 C01
+//@   id value-of-the-operand-at-one-rotated-point
+//@   requires s.num >= 1
+//@   requires forall a float64, b float64 :: s.min(a, b) == min(a, b)
+//@   requires forall q v2.Vec :: s.sdf.Evaluate(q) <= math.MaxFloat64
+//@   witnesses 0 i - 1
+//@   invariant 0 0 <= i && i <= s.num && rot == rupow2(s, i)
+//@   invariant 0 exists w int :: (i == 0 && d == math.MaxFloat64) || (0 <= w && w < i && d == s.sdf.Evaluate(rupow2(s, w).MulPosition(p)))
+//@   ensures [the-operand-seen-from-the-point-moved-by-one-of-the-first-num-powers-of-the-stored-step-starting-with-none] exists w int :: 0 <= w && w < s.num && r == s.sdf.Evaluate(rupow2(s, w).MulPosition(p))
+//@ end
